@@ -85,6 +85,14 @@ def cpub(qs):
     return clist(qs, lambda a: cchunks(a['pub']))
 
 
+def cmid(mid):
+    return clist(mid, lambda m: '(%s, %s)' % (cdump(m['dump']), cqans(m.get('q', []))))
+
+
+def chist(c):
+    return clist(c.get('hist') or [], lambda h: '(%s, %s)' % (cz(h[0]), cz(h[1])))
+
+
 def cname(s):
     return clist(list(s.encode('utf-8', 'surrogateescape')))
 
@@ -121,9 +129,9 @@ def full(o):
 
 def cobs(o):
     if full(o):
-        return '(mkObs %s false true %s %s %s %s %s %s %s)' % (clist(o['adderr']), cdump(o['dump']), cstat(o), cqans(o['q1']), cdump(o['dump3']), cqans(o['q3']),
-                                                             cpub(o['q1']), cpub(o['q3']))
-    return '(mkObs %s %s false %s %s [] %s [] [] [])' % (clist(o.get('adderr', [])), cb('addpanic' in o), EMPTY_DUMP, EMPTY_STAT, EMPTY_DUMP)
+        return '(mkObs %s false true %s %s %s %s %s %s %s %s)' % (clist(o['adderr']), cdump(o['dump']), cstat(o), cqans(o['q1']), cdump(o['dump3']), cqans(o['q3']),
+                                                                cpub(o['q1']), cpub(o['q3']), cmid(o.get('mid', [])))
+    return '(mkObs %s %s false %s %s [] %s [] [] [] [])' % (clist(o.get('adderr', [])), cb('addpanic' in o), EMPTY_DUMP, EMPTY_STAT, EMPTY_DUMP)
 
 
 def term(c, o):
@@ -131,15 +139,16 @@ def term(c, o):
     final expression over them), or None when the observation is not comparable."""
     if c.get('hasforeign') or 'recs' not in o:
         return None
-    if any(k in o for k in ('q1panic', 'mpanic', 'q3panic')):
+    if any(k in o for k in ('q1panic', 'mpanic', 'q3panic')) or any('panic' in m for m in o.get('mid', [])):
         return None
     parts = [('ixkind', ckind(c)),
              ('list irec', clist(o['recs'], lambda r: '(%s)' % crec(r))),
              ('list (Z * Z * Z)', clist(c['queries'], lambda q: '(%s, %s, %s)' % (cz(q[0]), cz(q[1]), cz(q[2])))),
              ('ixstrat', cstrat(c['strat'])),
+             ('list (Z * Z)', chist(c)),
              ('ixstrat', cstrat(c.get('qstrat', 'nil') if c['kind'] == 'bai' else 'nil')),
              ('ixobs', cobs(o))]
-    return (parts, 'mkCase %s %s %s %s %s %s')
+    return (parts, 'mkCase %s %s %s %s %s %s %s')
 
 
 def mismatches(header, ctype, agree, terms, tag, shard=None, jobs=8, explain=None):
@@ -245,8 +254,8 @@ def io_term(c, o):
     if foreign:
         fstatus = 3 if 'rdpanic' in o and 'frderr' not in o else status(o, 'frderr', 'frdnil', None)
         if fstatus != 0:
-            base = ([('ixkind', ckind(c)), ('list irec', '[]'), ('list (Z * Z * Z)', '[]'), ('ixstrat', 'SNil'), ('ixstrat', 'SNil'),
-                     ('ixobs', '(mkObs [] false true %s %s [] %s [] [] [])' % (EMPTY_DUMP, EMPTY_STAT, EMPTY_DUMP))], 'mkCase %s %s %s %s %s %s')
+            base = ([('ixkind', ckind(c)), ('list irec', '[]'), ('list (Z * Z * Z)', '[]'), ('ixstrat', 'SNil'), ('list (Z * Z)', '[]'), ('ixstrat', 'SNil'),
+                     ('ixobs', '(mkObs [] false true %s %s [] %s [] [] [] [])' % (EMPTY_DUMP, EMPTY_STAT, EMPTY_DUMP))], 'mkCase %s %s %s %s %s %s %s')
             io = '(mkIO %s [] (mkBytes None 0 0) %s 0 %s %s [] [] false)' % (cz(fstatus), EMPTY_DUMP, EMPTY_STAT, EMPTY_DUMP)
             parts, fmt = base
             return (parts + [('list Z', clist(c['foreign'])), ('ioobs', io)], 'mkIOCase (' + fmt + ') (Some %s) %s')
